@@ -163,6 +163,27 @@ def _worker_init(modname, env):
         _MOD.worker_init()
 
 
+def library_exception(pid, e):
+    """Where did an exception come from?  One raised inside the library at a
+    step the harness expects to succeed (it does on a correct tree) is a
+    verdict about the library: -> (key, what).  Anything else is a harness
+    bug: -> None."""
+    tb = traceback.extract_tb(e.__traceback__)
+    last_harness = max([i for i, f in enumerate(tb)
+                        if f.filename.startswith(VERIF + "/")] or [-1])
+    # (the innermost harness frame called into the library, and the
+    # exception came out of that call)
+    lib = [f for f in tb[last_harness + 1:]
+           if f.filename.startswith(REPO + "/")]
+    if not lib:
+        return None
+    where = lib[-1].name
+    return ("%s|unexpected-exception:%s@%s" % (pid, type(e).__name__, where),
+            "a step of the scenario that succeeds on a correct tree "
+            "raised %r in %s (%s:%d)" % (
+                e, where, os.path.basename(lib[-1].filename), lib[-1].lineno))
+
+
 def _run_one(mod, case):
     try:
         # (a private copy: the library must not be able to change the case
@@ -171,28 +192,10 @@ def _run_one(mod, case):
     except HarnessError:
         raise
     except Exception as e:
-        # Where did it come from?  An exception raised inside the library at
-        # a step the harness expects to succeed (it does on a correct tree)
-        # is a verdict about the library; anything else is a harness bug.
-        tb = traceback.extract_tb(e.__traceback__)
-        last_harness = max([i for i, f in enumerate(tb)
-                            if f.filename.startswith(VERIF + "/")] or [-1])
-        lib = [f for f in tb[last_harness + 1:]
-               if f.filename.startswith(REPO + "/")]
-        # (the innermost harness frame called into the library, and the
-        # exception came out of that call)
-        if lib:
-            where = lib[-1].name
-            return {
-                "nontrivial": False, "outcome": "unexpected-exception",
-                "violations": [(
-                    "%s|unexpected-exception:%s@%s" % (
-                        mod.ID, type(e).__name__, where),
-                    "a step of the scenario that succeeds on a correct tree "
-                    "raised %r in %s (%s:%d)" % (
-                        e, where, os.path.basename(lib[-1].filename),
-                        lib[-1].lineno))],
-            }
+        verdict = library_exception(mod.ID, e)
+        if verdict:
+            return {"nontrivial": False, "outcome": "unexpected-exception",
+                    "violations": [verdict]}
         raise HarnessError(
             "check_case crashed on %r\n%s" % (case, traceback.format_exc())
         )
@@ -226,9 +229,36 @@ def _worker_chunk(chunk):
     return chunk, out
 
 
+class LibraryRaised:
+    """result of a pool call that ended in a library exception"""
+
+    def __init__(self, key, what, fname, payload):
+        self.key, self.what = key, what
+        self.fname, self.payload = fname, payload
+
+
+def _call(mod, fname, payload):
+    try:
+        return getattr(mod, fname)(copy.deepcopy(payload))
+    except HarnessError:
+        raise
+    except Exception as e:
+        verdict = library_exception(mod.ID, e)
+        if not verdict:
+            raise
+        # confirm by an immediate second execution
+        try:
+            getattr(mod, fname)(copy.deepcopy(payload))
+        except Exception as e2:
+            if library_exception(mod.ID, e2) == verdict:
+                return LibraryRaised(verdict[0], verdict[1], fname, payload)
+        raise HarnessError("non-reproducible exception in %s(%r): %r"
+                           % (fname, payload, e))
+
+
 def _worker_call(args):
     fname, payload = args
-    return getattr(_MOD, fname)(payload)
+    return _call(_MOD, fname, payload)
 
 
 # --------------------------------------------------------------------------- #
@@ -282,12 +312,18 @@ class Ctx:
     def map_unordered(self, fname, payloads, chunksize=1):
         """Call mod.<fname>(payload) for every payload in the pool."""
         if NPROC == 1 or os.environ.get("XV_INLINE"):
-            for p in payloads:
-                yield getattr(self.mod, fname)(p)
-            return
-        yield from self.pool().imap_unordered(
-            _worker_call, ((fname, p) for p in payloads), chunksize
-        )
+            it = (_call(self.mod, fname, p) for p in payloads)
+        else:
+            it = self.pool().imap_unordered(
+                _worker_call, ((fname, p) for p in payloads), chunksize)
+        for r in it:
+            if isinstance(r, LibraryRaised):
+                # the library raised where a correct tree does not
+                self.evaluations += 1
+                self.violation(r.key, r.what,
+                               {"_call": r.fname, "payload": r.payload})
+                continue
+            yield r
 
     # -- bookkeeping ------------------------------------------------------ #
     def violation(self, key, what, case):
@@ -438,7 +474,10 @@ def run_replay(path):
     mod = load_module(art["property"])
     if hasattr(mod, "worker_init"):
         mod.worker_init()
-    if hasattr(mod, "replay"):
+    if isinstance(art["case"], dict) and "_call" in art["case"]:
+        r = _call(mod, art["case"]["_call"], art["case"]["payload"])
+        vio = [(r.key, r.what)] if isinstance(r, LibraryRaised) else []
+    elif hasattr(mod, "replay"):
         vio = mod.replay(art["case"])
     else:
         vio = mod.check_case(art["case"]).get("violations") or []
